@@ -72,6 +72,26 @@ PROPS = {
         "partial": [
             "marshal_valid_partial: hypotheses isTopErr v = false (open finding C17:marshal-empty:toplevel-error-value, refutation marshal_full_false) and rawsOK CompactWritesValue v (compact validity not proved)",
             "C17_full: scanner_sound/scanner_complete, compact/indent validity and the Unmarshal round trip are stated/tested, not proved; of the scanner only valid_no_panic / indent_no_panic are proved (compact's slice bounds are not)",
+    "C20": {
+        "lean": ["UgoVerif.Props.C20"],
+        "gen": ["Conv.lean", "ConvReg.lean"],
+        "streams": ["conv"],
+        "required_theorems": ["toObject_toInterface", "toObjectAlt_toInterface", "toInterface_toObject",
+                              "toInterface_toObjectAlt", "width_value", "width_value_toObject",
+                              "width_unsupported_toObject", "width_value_float", "unsupported_is_error",
+                              "registry_nil_safe", "conv_no_panic", "toInterface_total", "sim_scalar"],
+        "trusted": [
+            "goextract conv.go: scalar cases of ToObject/ToObjectAlt/ToInterface translated expression by expression; the element loops, the SyncMap case and the registry fall-back are recognised by exact comparison of the printed case body with a template (anything else fails closed)",
+            "hand model Model/ConvReg.lean of package registry and the converters registered by stdlib/time, stdlib/json, stdlib/fmt (which types are registered and whether a converter dereferences its pointer unguarded is the regenerated table Gen/ConvReg.lean), tied by stream `conv`",
+            "ConvOps.f32to64: float64(float32) is a parameter; theorems hold for every instance",
+        ],
+        "assumptions": [
+            "int, uint and uintptr are 64 bits wide (64-bit targets)",
+            "float64(float32) is exact (Go specification, Conversions between numeric types); float width_value is stated relative to it",
+            "Error() of a non-nil error value returns (a panic inside a user-supplied Error method is the caller's); an error holding a nil pointer is modelled as the worst case (its Error method dereferences the receiver)",
+            "Go maps are association lists with unique keys; which of several failing entries of one map[string]any is reported first depends on Go's map iteration order and is excluded by the generator",
+            "user-defined Object implementations are opaque (`Obj.other`): the conversions return them unchanged and never call their methods",
+            "ToObjectAlt is documented to turn every signed integer into Int: its round-trip theorems exclude rune/char (toObjectAlt_char shows the value is kept)",
         ],
     },
 }
